@@ -70,7 +70,20 @@ PAIRS_MORE = [("mile", "km"), ("lb", "kg"), ("hr", "min"), ("min", "hr"), ("degC
               ("statA", "A"), ("W", "J/s"), ("Pa", "N/m**2"), ("delta_degC", "K"), ("L", "dm**3")]
 BASE_SRC_QUICK = ["km", "ft", "lb", "degC", "km/hr", "G"]
 BASE_SRC_MORE = ["hr", "mile", "J", "inch", "erg", "degF", "mm", "T", "statC"]
-EQS = [("spectral", "m", "1/cm", "recip"), ("spectral", "km", "Hz", "c_over"), ("mass_energy", "g", "J", "mc2")]
+EQS = [("spectral", "m", "1/cm", "recip"), ("spectral", "km", "Hz", "c_over"), ("mass_energy", "g", "J", "mc2"),
+       # nonlinear formulas: the first step of the library's chain (x**4, x*x) is where integer data could wrap around
+       ("effective_temperature", "K", "W/m**2", "sigmaT4"), ("sound_speed", "m/s", "K", "cs2")]
+NONLINEAR = ("sigmaT4", "cs2")
+_LIBCONST = {}
+
+
+def lib_const(name):
+    """the library's own constant (C15's subject) as an exact rational of its SI float"""
+    if name not in _LIBCONST:
+        import unyt
+        q = getattr(unyt.physical_constants, name)
+        _LIBCONST[name] = Fr(float(q.in_mks().d) if hasattr(q, "in_mks") else float(q))
+    return _LIBCONST[name]
 C_LIGHT = Fr(299792458)
 
 COPY_ROUTES = ("to", "in_units", "to_value", "to(Unit)")
@@ -254,7 +267,11 @@ def equiv_expect(vals, src, dst, how):
     for v in vals:
         re, im = to_exact(v)
         if im is None:
-            if how == "recip":
+            if how == "sigmaT4":
+                e = lib_const("stefan_boltzmann_constant_mks") * (re * s1) ** 4 / s2
+            elif how == "cs2":            # T = mu*mh*v**2/(gamma*kb) with the documented defaults mu=0.6, gamma=5/3
+                e = Fr(6, 10) * lib_const("mass_hydrogen_mks") * (re * s1) ** 2 / (Fr(5, 3) * lib_const("boltzmann_constant_mks")) / s2
+            elif how == "recip":
                 e = 1 / (re * s1) / s2
             elif how == "c_over":
                 e = C_LIGHT / (re * s1) / s2
@@ -559,7 +576,11 @@ def run_conversions(unyt, rec, kind, dt, tier, r):
     scalar_cap = None if thorough else 14
     for (src, dst, eqinfo) in jobs:
         use_vals = vals
-        if eqinfo and eqinfo[1] != "mc2":
+        if eqinfo and eqinfo[1] in NONLINEAR:
+            if d.kind == "c":
+                continue                 # the formulas are for real temperatures / speeds
+            use_vals = [v for v in vals if v == v and v not in (float("inf"), float("-inf")) and (eqinfo[1] != "sigmaT4" or v >= 0)]
+        elif eqinfo and eqinfo[1] != "mc2":
             use_vals = [v for v in vals if v == v and v not in (0, float("inf"), float("-inf"))]
         elif eqinfo:
             use_vals = [v for v in vals if not (isinstance(v, float) and (v != v or v in (float("inf"), float("-inf"))))]
@@ -620,7 +641,7 @@ def run_conversions(unyt, rec, kind, dt, tier, r):
                     exps_all, ratio = exp_cache[key]
                     # map indices of fvals back into use_vals
                     gidx = [index_of(use_vals, fvals[i]) for i in idxs]
-                    const = None if not eqinfo else {"recip": None, "c_over": C_LIGHT, "mc2": C_LIGHT * C_LIGHT}[eqinfo[1]]
+                    const = None if not eqinfo else {"recip": None, "c_over": C_LIGHT, "mc2": C_LIGHT * C_LIGHT}.get(eqinfo[1])
                     ok = judge_conversion(rec, route, dt, form, src, label, res, gidx, exps_all, K, ratio, state, use_vals, const)
                     sub = "copy" if route in copy_routes else "inplace"
                     rec.count(f"evals:{kind}:{sub}")
